@@ -75,6 +75,15 @@ def chain_deflate():
     return [("040108", None)], enc
 
 
+def chain_deflate64():
+    import inflate64
+
+    def enc(d):
+        c = inflate64.Deflater()
+        return c.deflate(d) + c.flush()
+    return [("040109", None)], enc
+
+
 def chain_bcj_lzma2():
     f1 = {"id": lzma.FILTER_X86}
     f2 = {"id": lzma.FILTER_LZMA2, "preset": 1}
@@ -102,7 +111,7 @@ def chain_delta_lzma2():
 
 CHAINS = {"copy": chain_copy, "lzma2": chain_lzma2, "lzma": chain_lzma, "bzip2": chain_bzip2, "deflate": chain_deflate,
           "bcj+lzma2": chain_bcj_lzma2, "delta+lzma2": chain_delta_lzma2,
-          "bcj(0)+lzma2": chain_bcj_props_lzma2(0), "bcj(16)+lzma2": chain_bcj_props_lzma2(16)}
+          "deflate64": chain_deflate64, "bcj(0)+lzma2": chain_bcj_props_lzma2(0), "bcj(16)+lzma2": chain_bcj_props_lzma2(16)}
 
 
 def aes_props_and_cipher(password, cycles=6, ivlen=16, saltlen=0, rnd=None):
